@@ -89,7 +89,8 @@ class Profile(object):
 
 def gen_record(rng, n, kind=None, amp=None):
     """A list of n Python floats: the literal content of a record."""
-    kind = kind or rng.choice(["noise", "noise", "sines", "sines", "ramp", "ints", "spiky", "decay", "zeros_mostly"])
+    kind = kind or rng.choice(["noise", "noise", "sines", "sines", "ramp", "ints", "spiky", "decay", "zeros_mostly",
+                               "from_zero", "from_zero"])
     amp = amp if amp is not None else rng.choice([0.01, 0.3, 1.0, 1.0, 3.0, 9.81, 250.0])
     out = []
     if n <= 0:
@@ -117,6 +118,17 @@ def gen_record(rng, n, kind=None, amp=None):
         f = rng.uniform(0.02, 0.3)
         d = rng.uniform(0.5, 4.0) / max(n, 1)
         out = [amp * math.exp(-d * i) * math.sin(6.283185307 * f * i + 0.3) for i in range(n)]
+    elif kind == "from_zero":
+        # like a recorded motion: starts at exactly zero, no two equal neighbours, first excursion of either sign
+        out = [0.0]
+        sgn = rng.choice([-1.0, 1.0])
+        for i in range(1, n):
+            step = sgn * amp * rng.uniform(0.05, 1.0)
+            out.append(out[-1] + step if rng.random() < 0.6 else -out[-1] * rng.uniform(0.2, 0.9) + step * 0.1)
+            if rng.random() < 0.35:
+                sgn = -sgn
+            if out[-1] == out[-2]:
+                out[-1] += 0.01 * amp
     else:  # zeros_mostly
         out = [0.0] * n
         if n:
